@@ -156,6 +156,11 @@ for _k, _v in ROUND9.items():
 
 # round 10
 ROUND10 = {
+ "C02": "; the base type spelled i8 in a quarter of the program pool",
+ "C03": "; caller held (own FContext wrapper parking in Timeout()) until the reply frame is back before it waits",
+ "C10": "; enum members sharing a number in the JSON-descriptor witnesses",
+ "C12": "; method-name length of requests for unknown methods up to the request limit",
+ "C20": "; work left in queue and workers after the drain (> 10 s) x connection closed at Serve's return",
  "C05": "; well-formed responses repeated for a still-registered op id as a hostile input class",
  "C06": "; duplicate response fed while the first is buffered and the caller picks it up inside the reader's handling of the duplicate",
  "C07": "; backlog inside the subscriber at Unsubscribe followed by a new subscription on the same transport object",
